@@ -364,6 +364,9 @@ func typedView(typ string, ox, oy, w, h int, seed int64) (image.Image, func() st
 		par := image.NewCMYK(pr)
 		for i := range par.Pix {
 			par.Pix[i] = val((i%par.Stride)/4, i/par.Stride, 5+i%4)
+			if i%4 == 3 {
+				par.Pix[i] = 0 // K = 0: the colour is then exactly an 8-bit RGB colour
+			}
 		}
 		return par.SubImage(vr), func() string { return fw.Digest(par.Pix) }
 	}
@@ -397,9 +400,24 @@ func (cs *c19Case) runTyped() string {
 			}
 		}
 	}
-	refBytes, err, p := encode(canon, cs.opts())
+	var canonImg image.Image = canon
+	canonName := "a plain *image.NRGBA holding the same colours"
+	if yv, ok := view.(*image.YCbCr); ok {
+		// a Y'CbCr colour is a 16-bit colour in Go (color.YCbCr.RGBA), not exactly an 8-bit one: the
+		// exact "same colours, other storage" is a 4:4:4 picture at the origin carrying, for every
+		// pixel, the (Y, Cb, Cr) triple the view yields there
+		c444 := image.NewYCbCr(image.Rect(0, 0, cs.W, cs.H), image.YCbCrSubsampleRatio444)
+		for y := 0; y < cs.H; y++ {
+			for x := 0; x < cs.W; x++ {
+				t := yv.YCbCrAt(b.Min.X+x, b.Min.Y+y)
+				c444.Y[c444.YOffset(x, y)], c444.Cb[c444.COffset(x, y)], c444.Cr[c444.COffset(x, y)] = t.Y, t.Cb, t.Cr
+			}
+		}
+		canonImg, canonName = c444, "a 4:4:4 *image.YCbCr at the origin holding the same colours"
+	}
+	refBytes, err, p := encode(canonImg, cs.opts())
 	if p != "" || err != nil {
-		return fmt.Sprintf("Encode of the plain NRGBA failed: %v %s", err, first(p))
+		return fmt.Sprintf("Encode of the canonical picture failed: %v %s", err, first(p))
 	}
 	before := digest()
 	got, err, p := encode(view, cs.opts())
@@ -413,7 +431,7 @@ func (cs *c19Case) runTyped() string {
 		return "Encode modified the caller's pixel storage"
 	}
 	if !bytes.Equal(got, refBytes) {
-		return fmt.Sprintf("output differs from the encoding of a plain *image.NRGBA holding the same colours (%d vs %d bytes, digests %s vs %s)", len(got), len(refBytes), fw.Digest(got), fw.Digest(refBytes))
+		return fmt.Sprintf("output differs from the encoding of %s (%d vs %d bytes, digests %s vs %s)", canonName, len(got), len(refBytes), fw.Digest(got), fw.Digest(refBytes))
 	}
 	hid, err, p := encode(hideType{view}, cs.opts())
 	if p != "" || err != nil {
